@@ -72,6 +72,12 @@ CLAIMED.update({
             "Trusted: graph reference (~150 lines). Two open findings (negative time_sched on alternative branches; structural self-check panic on very short networks)."),
 })
 
+CLAIMED.update({
+    "C18": ("thr", "exploration",
+            "(a) LocomotiveSimulationVec::walk(parallelize=true) through the executor seam under shuttle: batches of 1-12 generated simulations (some failing at a seeded step), 1-16 simulated workers claiming from a shared queue, every simulation step a scheduling point, cancellation after an error; seeded Random and PCT (depth 2-4) schedulers, 24 / 60 schedules per case; oracle bit-exact: every element = its own serial result (or untouched after an error), batch = serial batch, an error names a failing element, inputs unchanged. (b) cases of the worlds trn / dsp / trk / val executed under simulated RandomState keys A, A, B: identical outputs (trace hash over every observed state). (c) the real rayon branch in local pools of 1, 2, 4, 16 threads against the same oracle (observation of uncontrolled threads).",
+            "Trusted: the executor stub's fidelity to rayon's try_for_each contract (cross-checked by (c)); a failure replays from (case, scheduler seed, iteration count) because shuttle's seeded schedulers are deterministic."),
+})
+
 NOT_YET = {
     "C02": "check not built yet (planned in world trk, DESIGN 4)",
     "C03": "check not built yet (planned in world trn, DESIGN 4)",
